@@ -107,9 +107,12 @@ def work(args):
                 kind = ("model", cname)
                 for i in range(per_class):
                     valid_gen = i < (per_class * 2 + 2) // 3
-                    j = inst.model_instance(cname, 0, canonical=(i % 4 != 3))
-                    if not valid_gen:
-                        j = inst.mutate(kind, j)
+                    try:
+                        j = inst.model_instance(cname, 0, canonical=(i % 4 != 3))
+                        if not valid_gen:
+                            j = inst.mutate(kind, j)
+                    except (G.NoInstance, RecursionError):
+                        break          # a cycle of required properties: the schema has no finite instance
                     ops.append({"op": "roundtrip", "cls": cname, "data": absprop.to_runner_json(j)})
                     meta.append((cname, j, valid_gen))
             res = impl.run_client(g.out, ops, timeout=300) if ops else []
